@@ -798,6 +798,37 @@ func (e *eng) hooks(r *runState) {
 				}
 				return d, true
 			}
+			// an operator or accessor applied to a constant at compile time: the
+			// constant's value is not modelled, the answer is an unknown of the
+			// result type (a decision on it forks the path)
+			for _, a := range args {
+				if _, isConst := a.(*dsEntry); isConst {
+					res := callee.Signature.Results()
+					mk := func(i int) absint.Val {
+						return absint.NewVar(fmt.Sprintf("%s.%d of a constant", name, i), res.At(i).Type())
+					}
+					switch res.Len() {
+					case 0:
+						return nil, true
+					case 1:
+						return mk(0), true
+					}
+					tu := &absint.Tuple{}
+					for i := 0; i < res.Len(); i++ {
+						if res.At(i).Type().String() == "error" {
+							if in.Oracle.Choose(2, name+" of a constant fails") == 0 {
+								tu.E = append(tu.E, absint.Const{T: res.At(i).Type()})
+							} else {
+								ec := in.NewCell(absint.NewVar("err", nil), "err")
+								tu.E = append(tu.E, &absint.Iface{T: types.NewPointer(types.Typ[types.Int]), V: &absint.Ptr{Cell: ec}})
+							}
+							continue
+						}
+						tu.E = append(tu.E, mk(i))
+					}
+					return tu, true
+				}
+			}
 		case "reflect":
 			if name == "DeepEqual" {
 				return absint.MkBool(in.Oracle.Choose(2, "operands structurally equal") == 1), true
